@@ -1,7 +1,10 @@
 /-
-Oracle driver for C06.  Header: `trie <hexpattern>…`.  Ops: `mask <hextext> <rune>`,
-`replace <hextext> <hexrepl>`; answers the result string in hex, or `panic`.  History ops
-`insert <hex>` / `build` and the structural `dump` are those of the C05 driver.
+Oracle driver for C06.  Header: `trie <hexpattern>…` (or `raw …`: no build).  Ops:
+`mask <hextext> <rune>`, `replace <hextext> <hexrepl>`; answers the result string in hex, or
+`panic`.  A text / replacement `^` is the previous result of `mask`/`replace` (fed back in).
+History ops `insert <hex>` / `build`, the structural `dump`, the driver state and the loop are
+those of the C05 driver; `sibling <hexpat> <hextext>` answers `Replace(text, "#")` on an
+independent second trie built from the one pattern.
 -/
 import Golib.Model.C06Replace
 import Golib.Model.C05
@@ -9,41 +12,24 @@ import Golib.Model.C05
 namespace Golib.C06
 open Golib.Proto Golib.C05
 
-def runOp (t : Trie) (ts : List String) : Option (Option String) :=
+def runOp (s : DState) (ts : List String) : Option (Option (String × Option (List Nat))) :=
   match ts with
-  | ["dump"] => some (dumpLine t)
+  | ["dump"] => some ((dumpLine s.t).map fun o => (o, none))
+  | ["sibling", pat, text] =>
+    match argBytes s pat, argBytes s text with
+    | some p, some x =>
+      some (((Trie.ofPatterns [p]).bind fun t2 => replace t2 x [35]).map fun r => (hex r, none))
+    | _, _ => none
   | ["mask", text, m] =>
-    match unhex text, m.toInt? with
-    | some bs, some mask => if bytesOK bs then some ((replaceWithMask t bs mask).map hex) else none
+    match argBytes s text, m.toInt? with
+    | some bs, some mask => some ((replaceWithMask s.t bs mask).map fun r => (hex r, some r))
     | _, _ => none
   | ["replace", text, repl] =>
-    match unhex text, unhex repl with
-    | some bs, some rp => if bytesOK bs ∧ bytesOK rp then some ((replace t bs rp).map hex) else none
+    match argBytes s text, argBytes s repl with
+    | some bs, some rp => some ((replace s.t bs rp).map fun r => (hex r, some r))
     | _, _ => none
   | _ => none
 
-def runOps : Option Trie → List String → List String
-  | _, [] => []
-  | none, _ :: ls => "dead" :: runOps none ls
-  | some t, l :: ls =>
-    match mutOp t (toks l) with
-    | some (some t') => "ok" :: runOps (some t') ls
-    | some none => "panic" :: runOps none ls
-    | none =>
-      match runOp t (toks l) with
-      | none => "bad-op" :: runOps (some t) ls
-      | some none => "panic" :: runOps none ls
-      | some (some out) => out :: runOps (some t) ls
-
-def runCase (hdr : List String) (ops : List String) : List String :=
-  match hdr with
-  | "trie" :: rest =>
-    match parsePatterns rest with
-    | none => "bad-op" :: ops.map fun _ => "bad-op"
-    | some pats =>
-      match Trie.ofPatterns pats with
-      | none => "panic" :: runOps none ops
-      | some t => "ok" :: runOps (some t) ops
-  | _ => "bad-op" :: ops.map fun _ => "bad-op"
+def runCase (hdr : List String) (ops : List String) : List String := runCaseWith runOp hdr ops
 
 end Golib.C06
